@@ -42,6 +42,10 @@ Depth1 ==
   \cup {Uni(<<x, y>>) : x \in {TNull, TNumber, LN("1"), TString}, y \in {TBoolean, LN("2"), LS("a"), TString}}
   \cup {Inter(<<x, y>>) : x \in {TNumber, LN("1"), TString}, y \in {TNumber, LN("1"), LS("a")}}
   \cup {Ref(Env[i].n) : i \in DOMAIN Env}
+  \* a named type next to another member of the same kind: the same atom (named types are memoized) occurs on both sides of a
+  \* comparison, inside a decision diagram that has further members
+  \cup {Uni(<<Ref(nm), o>>) : nm \in {"L", "M1"}, o \in {O(<<Prop("a", TString, FALSE)>>), O(<<Prop("b", TNumber, FALSE)>>)}}
+  \cup {Uni(<<Ref("Tu"), t>>) : t \in {Tup(<<TString>>, <<>>), Tup(<<TNull>>, <<>>)}}
 
 Depth2 ==
   {Uni(<<O(<<Prop("a", TNumber, FALSE)>>), O(<<Prop("b", TString, FALSE)>>)>>),
